@@ -216,7 +216,7 @@ def logOps (c : Cfg) (st : State) (s : Step) : List (Sid × String) :=
     match st.get me with
     | none => []
     | some sv =>
-      if Gen.Protocol.commitMinISRCmp.evalNat sv.isrOff.length c.minISR then []
+      if commitGate c sv then []
       else [(me, s!"sethw {goMin (sv.isrOff.map (·.2))}")]
   | .applyNext me =>
     match st.get me, step c st s with
